@@ -77,6 +77,18 @@ theorem loop_overlap_preserves (cfg : Cfg) (path : List Nat) (j fresh : Nat) (b 
     (execB cfg false b' st).tr = (execB cfg false b st).tr :=
   loop_overlap_trace cfg path j fresh b b' b2 bg h' h2 hg hng hwfg hok hreads st
 
+/-- The same with the taint analysis as side condition: no launch and no effectful call of `bg` sees a register field last
+written by one of the two copies before a real setup re-writes it (`okTB`). Unlike launch totality this does not constrain
+launches of other accelerators or loops rotated by earlier steps, and needs no well-formedness of `bg`. -/
+theorem loop_overlap_preserves_taint (cfg : Cfg) (path : List Nat) (j fresh : Nat) (b b' b2 bg : Block)
+    (h' : applyLoopOverlapGen false false path j fresh b = some b')
+    (h2 : applyLoopOverlapGen true false path j fresh b = some b2)
+    (hg : applyLoopOverlapGen true true path j fresh b = some bg)
+    (hng : noGhostB b2 = true) (hok : okTB cfg.fields bg [] = true)
+    (hreads : ∀ x ∈ readsB b, x < fresh) (st : St) :
+    (execB cfg false b' st).tr = (execB cfg false b st).tr :=
+  loop_overlap_trace_taint cfg path j fresh b b' b2 bg h' h2 hg hng hok hreads st
+
 /-- a loop in the lowering's form: `%13 = cast %iv; setup(P = %13, Q = %1); launch; await`, re-configured after the loop -/
 def rotExample : Block :=
   .cons (.pure 11 (.const 1) []) <|
@@ -89,7 +101,8 @@ example : (do
     let _ ← applyLoopOverlapGen false false [1] 1 14 rotExample
     let b2 ← applyLoopOverlapGen true false [1] 1 14 rotExample
     let bg ← applyLoopOverlapGen true true [1] 1 14 rotExample
-    pure (noGhostB b2 && wfB bg && okBb (fun _ => [0, 1]) bg noFacts && (readsB rotExample).all (· < 14))) = some true := by
+    pure (noGhostB b2 && wfB bg && okBb (fun _ => [0, 1]) bg noFacts && okTB (fun _ => [0, 1]) bg [] &&
+      (readsB rotExample).all (· < 14))) = some true := by
   decide
 
 /-! ## Known finding D26 (loop-level overlap with several setups in the body)
